@@ -441,39 +441,40 @@ def make_recorder():
     class Recorder(P.LinksHTMLParser):  # type: ignore[misc,name-defined]
         events: List[Any] = []
 
-        def handle_starttag(self, tag, attrs):
+        def handle_starttag(self, tag, attrs, *args, **kwargs):
             Recorder.events.append(("S", tag, list(attrs)))
-            super().handle_starttag(tag, attrs)
+            super().handle_starttag(tag, attrs, *args, **kwargs)
 
-        def handle_endtag(self, tag):
+        def handle_endtag(self, tag, *args, **kwargs):
             Recorder.events.append(("E", tag))
-            super().handle_endtag(tag)
+            super().handle_endtag(tag, *args, **kwargs)
 
-        def handle_data(self, data):
+        def handle_data(self, data, *args, **kwargs):
             Recorder.events.append(("D", data))
-            super().handle_data(data)
+            super().handle_data(data, *args, **kwargs)
 
     return Recorder
 
 
-class FakeResponse:
+class FakeResponse(common.FakeResponseBase):
     def __init__(self, url: str, body: bytes, status: int = 200) -> None:
         self.url, self.content, self.status_code = url, body, status
 
-    def raise_for_status(self) -> None:
+    def raise_for_status(self, *args: Any, **kwargs: Any) -> None:
         if self.status_code >= 400:
             raise RuntimeError("status")
 
-    def iter_content(self, n: int):
+    def iter_content(self, chunk_size: Any = 1, *args: Any, **kwargs: Any):
+        n = chunk_size if isinstance(chunk_size, int) and chunk_size > 0 else max(len(self.content), 1)
         for i in range(0, len(self.content), n):
             yield self.content[i:i + n]
 
 
-class FakeSession:
+class FakeSession(common.FakeSessionBase):
     def __init__(self, pages: Dict[str, bytes]) -> None:
         self.pages, self.requested = pages, []
 
-    def get(self, url: str, stream: bool = False) -> FakeResponse:
+    def get(self, url: str, *args: Any, **kwargs: Any) -> FakeResponse:     # stream=, timeout=, headers= ...: all the same here
         self.requested.append(url)
         if url in self.pages:
             return FakeResponse(url, self.pages[url])
@@ -482,7 +483,7 @@ class FakeSession:
             return FakeResponse(bare, self.pages[bare])
         return FakeResponse(url, b"", 404)
 
-    def close(self) -> None:
+    def close(self, *args: Any, **kwargs: Any) -> None:
         pass
 
 
@@ -499,8 +500,8 @@ def impl_page(html: str, triple) -> Tuple[Any, List[Any], str]:
     holder: List[Any] = []
     orig_init = Rec.__init__
 
-    def init(self, u):
-        orig_init(self, u)
+    def init(self, *args, **kwargs):    # whatever arguments the code passes to its parser
+        orig_init(self, *args, **kwargs)
         holder.append(self)
     Rec.__init__ = init  # type: ignore[method-assign]
     raised = False
@@ -508,7 +509,8 @@ def impl_page(html: str, triple) -> Tuple[Any, List[Any], str]:
         with PyVer(triple):
             try:
                 scan("https://idx.example.org/simple", "Proj", sess, 0)
-            except Exception:
+            except Exception as ex:
+                common.reraise_harness_fault(ex)     # the recording parser / fake session are the harness's, not the page parser
                 raised = True
     finally:
         P.LinksHTMLParser = saved
@@ -661,6 +663,7 @@ def impl_sequence(scn: Dict[str, Any], wheeldir: str, through_get_dist: bool = F
                    "printed_url": urllib.parse.urljoin(link[0], link[1]),
                    "downloads": [u for u in sess.requested if u != page_url]}
         except Exception as ex:
+            common.reraise_harness_fault(ex)     # the fake session / responses are the harness's
             obs = {"exc": type(ex).__name__}
         obs["wheeldir"] = {f: _cid_of_bytes(f, open(os.path.join(wheeldir, f), "rb").read()) for f in sorted(os.listdir(wheeldir)) if f in SEQ_FILES}
         out.append(obs)
@@ -932,6 +935,7 @@ def hash_and_findlinks(ctx: Ctx) -> None:
             dist, _ = repo.resolve_candidate(lp.dists[0])
             impl = {"hash": dist.hash, "requested": sess.requested, "name": dist.name}
         except Exception as ex:
+            common.reraise_harness_fault(ex)     # the fake session / responses are the harness's
             impl = {"exc": type(ex).__name__}
         hlines.append("H " + hx(resource))
         hexp.append((resource, full, impl, name))
@@ -1361,6 +1365,7 @@ def oracle_hash(resource_base: str, digest: str) -> Optional[str]:
         try:
             dist, _ = repo.resolve_candidate(lp.dists[0])
         except Exception as ex:
+            common.reraise_harness_fault(ex)     # the fake session / responses are the harness's
             return f"resolve_candidate raised {type(ex).__name__}"
         if dist.hash != "sha256:" + digest:
             return f"hash {dist.hash!r} is not the link's fragment sha256:{digest}"
